@@ -145,3 +145,19 @@ def count (h : List Event) (a : Addr) (k : Kind) : Nat :=
   (h.filter fun e => e.addr = a ∧ e.kind = k).length
 
 end Rough.Stats
+
+namespace Rough.Stats
+
+/-- the statistics pipeline of one worker: events are recorded; at every snapshot point
+    (`send_client_stats`) the recorder's entries are pushed to the queue (if there are any) and the
+    recorder is cleared. `intervals` = the events between consecutive snapshot points, the last
+    interval being the events not yet published. Returns the queue contents and the final recorder. -/
+def publish (limit : Nat) : List (List Event) → List (List (Addr × Counters)) × PerClient
+  | [] => ([], PerClient.init limit)
+  | [last] => ([], PerClient.run (PerClient.init limit) last)
+  | iv :: rest =>
+    let s := PerClient.run (PerClient.init limit) iv
+    let (q, fin) := publish limit rest
+    (if s.clients.isEmpty then q else s.clients :: q, fin)
+
+end Rough.Stats
